@@ -18,6 +18,7 @@ import (
 	"fmt"
 	"go/ast"
 	"go/parser"
+	"go/token"
 	"go/types"
 	"sort"
 	"strings"
@@ -484,6 +485,378 @@ func (nz *normaliser) swapThinWrappers() {
 				id.Name = nn
 				nz.changed[f] = true
 			}
+			return true
+		})
+	}
+}
+
+// ---- N15: standard-library iterators in range clauses ----
+//
+//	for name := range strings.SplitSeq(key, ".")   ->  for _, name := range strings.Split(key, ".")
+//	for f := range strings.FieldsSeq(s)            ->  for _, f := range strings.Fields(s)
+//	for v := range slices.Values(xs)               ->  for _, v := range xs
+//	for i, v := range slices.All(xs)               ->  for i, v := range xs
+//	for k := range maps.Keys(m)                    ->  for k := range m
+//	for v := range maps.Values(m)                  ->  for _, v := range m
+//	for k, v := range maps.All(m)                  ->  for k, v := range m
+//
+// The iterator forms visit the same elements in the same order as the slice / map they stand
+// for (SplitSeq is specified as the lazy Split); go/ssa lowers a range over a function into a
+// yield closure with run-time checks (synthetic panics), in which no rule recognises a loop.
+func (nz *normaliser) stdIteratorsIn(f *ast.File) {
+	astutil.Apply(f, nil, func(c *astutil.Cursor) bool {
+		rs, ok := c.Node().(*ast.RangeStmt)
+		if !ok {
+			return true
+		}
+		ce, ok := rs.X.(*ast.CallExpr)
+		if !ok {
+			return true
+		}
+		se, ok := ce.Fun.(*ast.SelectorExpr)
+		if !ok {
+			return true
+		}
+		pid, ok := se.X.(*ast.Ident)
+		if !ok {
+			return true
+		}
+		pn, ok := nz.info.Uses[pid].(*types.PkgName)
+		if !ok {
+			return true
+		}
+		path := pn.Imported().Path()
+		if rs.Tok != token.DEFINE && (rs.Key != nil || rs.Value != nil) {
+			return true
+		}
+		valueOnly := func() bool { // the single range variable becomes the VALUE of a slice / map range
+			if rs.Value != nil {
+				return false
+			}
+			rs.Value = rs.Key
+			if rs.Key != nil {
+				rs.Key = ast.NewIdent("_")
+			}
+			return true
+		}
+		done := ""
+		switch {
+		case (path == "strings" || path == "bytes") && (se.Sel.Name == "SplitSeq" || se.Sel.Name == "SplitAfterSeq" || se.Sel.Name == "FieldsSeq") && (len(ce.Args) == 2 || len(ce.Args) == 1):
+			if !valueOnly() {
+				return true
+			}
+			se.Sel = ast.NewIdent(strings.TrimSuffix(se.Sel.Name, "Seq"))
+			done = path + "." + se.Sel.Name + "Seq"
+		case path == "slices" && se.Sel.Name == "Values" && len(ce.Args) == 1:
+			if !valueOnly() {
+				return true
+			}
+			rs.X = ce.Args[0]
+			done = "slices.Values"
+		case path == "maps" && se.Sel.Name == "Values" && len(ce.Args) == 1:
+			if !valueOnly() {
+				return true
+			}
+			rs.X = ce.Args[0]
+			done = "maps.Values"
+		case (path == "slices" || path == "maps") && se.Sel.Name == "All" && len(ce.Args) == 1:
+			rs.X = ce.Args[0]
+			done = path + ".All"
+		case path == "maps" && se.Sel.Name == "Keys" && len(ce.Args) == 1:
+			if rs.Value != nil {
+				return true
+			}
+			rs.X = ce.Args[0]
+			done = "maps.Keys"
+		default:
+			return true
+		}
+		nz.changed[f] = true
+		nz.log = append(nz.log, "range over "+done+"(...) written as the range over the slice / map it stands for")
+		return true
+	})
+}
+
+// ---- N9 (continued): cmp.Or ----
+//
+//	x := cmp.Or(a, b, c)   ->   _t0, _t1, _t2 := a, b, c; x := _t0; if x == zero { x = _t1 }; if x == zero { x = _t2 }
+//
+// (every argument is evaluated, in order, as for the call; the first non-zero one is the value).
+// Only as the single right-hand side of an assignment / definition of one variable of string,
+// numeric or boolean type.
+func (nz *normaliser) cmpOrIn(f *ast.File) {
+	isCmpOr := func(e ast.Expr) *ast.CallExpr {
+		ce, ok := e.(*ast.CallExpr)
+		if !ok || len(ce.Args) < 2 || ce.Ellipsis.IsValid() {
+			return nil
+		}
+		fun := ce.Fun
+		if ix, ok := fun.(*ast.IndexExpr); ok {
+			fun = ix.X
+		}
+		se, ok := fun.(*ast.SelectorExpr)
+		if !ok || se.Sel.Name != "Or" {
+			return nil
+		}
+		pid, ok := se.X.(*ast.Ident)
+		if !ok {
+			return nil
+		}
+		pn, ok := nz.info.Uses[pid].(*types.PkgName)
+		if !ok || pn.Imported().Path() != "cmp" {
+			return nil
+		}
+		return ce
+	}
+	zeroOf := func(t types.Type) ast.Expr {
+		b, ok := t.Underlying().(*types.Basic)
+		if !ok {
+			return nil
+		}
+		switch {
+		case b.Info()&types.IsString != 0:
+			return &ast.BasicLit{Kind: token.STRING, Value: `""`}
+		case b.Info()&types.IsNumeric != 0:
+			return &ast.BasicLit{Kind: token.INT, Value: "0"}
+		case b.Info()&types.IsBoolean != 0:
+			return ast.NewIdent("false")
+		}
+		return nil
+	}
+	rewrite := func(st ast.Stmt) []ast.Stmt {
+		as, ok := st.(*ast.AssignStmt)
+		if !ok || len(as.Lhs) != 1 || len(as.Rhs) != 1 || (as.Tok != token.ASSIGN && as.Tok != token.DEFINE) {
+			return nil
+		}
+		lhs, ok := as.Lhs[0].(*ast.Ident)
+		if !ok || lhs.Name == "_" {
+			return nil
+		}
+		ce := isCmpOr(as.Rhs[0])
+		if ce == nil {
+			return nil
+		}
+		t := nz.info.TypeOf(ce)
+		zero := zeroOf(t)
+		if zero == nil {
+			return nil
+		}
+		nz.n++
+		var tmps []ast.Expr
+		for i := range ce.Args {
+			tmps = append(tmps, ast.NewIdent(fmt.Sprintf("_or%d_%d", nz.n, i)))
+		}
+		out := []ast.Stmt{&ast.AssignStmt{Lhs: tmps, Tok: token.DEFINE, Rhs: ce.Args}}
+		out = append(out, &ast.AssignStmt{Lhs: []ast.Expr{ast.NewIdent(lhs.Name)}, Tok: as.Tok, Rhs: []ast.Expr{ast.NewIdent(tmps[0].(*ast.Ident).Name)}})
+		for i := 1; i < len(tmps); i++ {
+			out = append(out, &ast.IfStmt{
+				Cond: &ast.BinaryExpr{X: ast.NewIdent(lhs.Name), Op: token.EQL, Y: copyNode(zero).(ast.Expr)},
+				Body: &ast.BlockStmt{List: []ast.Stmt{&ast.AssignStmt{Lhs: []ast.Expr{ast.NewIdent(lhs.Name)}, Tok: token.ASSIGN, Rhs: []ast.Expr{ast.NewIdent(tmps[i].(*ast.Ident).Name)}}}},
+			})
+		}
+		return out
+	}
+	ast.Inspect(f, func(n ast.Node) bool {
+		fix := func(list []ast.Stmt) []ast.Stmt {
+			var out []ast.Stmt
+			changed := false
+			for _, st := range list {
+				if rep := rewrite(st); rep != nil {
+					out = append(out, rep...)
+					changed = true
+				} else {
+					out = append(out, st)
+				}
+			}
+			if changed {
+				nz.changed[f] = true
+				nz.log = append(nz.log, "cmp.Or(...) written out as the first-non-zero chain")
+			}
+			return out
+		}
+		switch x := n.(type) {
+		case *ast.BlockStmt:
+			x.List = fix(x.List)
+		case *ast.CaseClause:
+			x.Body = fix(x.Body)
+		case *ast.CommClause:
+			x.Body = fix(x.Body)
+		}
+		return true
+	})
+}
+
+// ---- N14 (methods): calls of the method behind a forwarding stub ----
+//
+// `func ReadKeyFromFile(path string) ([]byte, error) { return KeyFile(path).Read() }` with the body
+// moved to the method `KeyFile.Read` of a new named type, which other code now calls directly
+// (`KeyFile(p).Read()`, `f.Read()` inside other methods): every such call is written as the call
+// of the reviewed function with the receiver converted back - `ReadKeyFromFile(string(f))`. This
+// is the same computation (the stub converts forth, the method is applied; the named type and
+// the parameter type have the same underlying type, so the round trip keeps the value); the
+// method is then called from the stub only, and the inliner puts its body there.
+func (nz *normaliser) stubMethodCalls() {
+	if nz.baseline == nil {
+		return
+	}
+	info := nz.info
+	type stub struct {
+		f        *types.Func
+		fd       *ast.FuncDecl
+		m        *types.Func
+		recvPrm  int   // index of the parameter the receiver is made from
+		argPrm   []int // for each method argument: index of the stub parameter
+		prmTypes []types.Type
+		file     *ast.File
+	}
+	var stubs []*stub
+	for _, file := range nz.pkg.Syntax {
+		for _, d := range file.Decls {
+			fd, ok := d.(*ast.FuncDecl)
+			if !ok || fd.Body == nil || fd.Recv != nil || !nz.baseline[fd.Name.Name] || len(fd.Body.List) != 1 || fd.Type.TypeParams != nil {
+				continue
+			}
+			fo, ok := info.Defs[fd.Name].(*types.Func)
+			if !ok {
+				continue
+			}
+			var ce *ast.CallExpr
+			switch s := fd.Body.List[0].(type) {
+			case *ast.ReturnStmt:
+				if len(s.Results) == 1 {
+					ce, _ = s.Results[0].(*ast.CallExpr)
+				}
+			case *ast.ExprStmt:
+				ce, _ = s.X.(*ast.CallExpr)
+			}
+			if ce == nil || ce.Ellipsis.IsValid() {
+				continue
+			}
+			se, ok := ce.Fun.(*ast.SelectorExpr)
+			if !ok {
+				continue
+			}
+			sel := info.Selections[se]
+			if sel == nil || sel.Kind() != types.MethodVal || len(sel.Index()) != 1 {
+				continue
+			}
+			m, ok := sel.Obj().(*types.Func)
+			if !ok || m.Pkg() != nz.pkg.Types {
+				continue
+			}
+			msig := m.Type().(*types.Signature)
+			if _, ptr := msig.Recv().Type().(*types.Pointer); ptr || msig.Variadic() {
+				continue
+			}
+			sig := fo.Type().(*types.Signature)
+			prmIdx := func(e ast.Expr) int {
+				for {
+					if p, ok := e.(*ast.ParenExpr); ok {
+						e = p.X
+						continue
+					}
+					break
+				}
+				id, ok := e.(*ast.Ident)
+				if !ok {
+					return -1
+				}
+				for i := 0; i < sig.Params().Len(); i++ {
+					if info.Uses[id] == types.Object(sig.Params().At(i)) {
+						return i
+					}
+				}
+				return -1
+			}
+			// receiver: T(p) or p
+			rx := se.X
+			if conv, ok := rx.(*ast.CallExpr); ok && len(conv.Args) == 1 {
+				if tv, has := info.Types[conv.Fun]; has && tv.IsType() {
+					rx = conv.Args[0]
+				}
+			}
+			ri := prmIdx(rx)
+			if ri < 0 || !types.Identical(sig.Params().At(ri).Type().Underlying(), msig.Recv().Type().Underlying()) {
+				continue
+			}
+			st := &stub{f: fo, fd: fd, m: m, recvPrm: ri, file: file}
+			used := map[int]bool{ri: true}
+			okArgs := len(ce.Args) == msig.Params().Len()
+			for _, a := range ce.Args {
+				ai := prmIdx(a)
+				if ai < 0 || used[ai] {
+					okArgs = false
+					break
+				}
+				used[ai] = true
+				st.argPrm = append(st.argPrm, ai)
+			}
+			if !okArgs || len(used) != sig.Params().Len() {
+				continue
+			}
+			for i := 0; i < sig.Params().Len(); i++ {
+				st.prmTypes = append(st.prmTypes, sig.Params().At(i).Type())
+			}
+			stubs = append(stubs, st)
+		}
+	}
+	if len(stubs) == 0 {
+		return
+	}
+	byMethod := map[*types.Func]*stub{}
+	for _, st := range stubs {
+		if byMethod[st.m] != nil {
+			return // two stubs for one method: leave it
+		}
+		byMethod[st.m] = st
+	}
+	for _, file := range nz.pkg.Syntax {
+		qual, qok := nz.fileQualifier(file)
+		var curDecl *ast.FuncDecl
+		astutil.Apply(file, func(c *astutil.Cursor) bool {
+			if fd, ok := c.Node().(*ast.FuncDecl); ok {
+				curDecl = fd
+			}
+			return true
+		}, func(c *astutil.Cursor) bool {
+			ce, ok := c.Node().(*ast.CallExpr)
+			if !ok {
+				return true
+			}
+			se, ok := ce.Fun.(*ast.SelectorExpr)
+			if !ok {
+				return true
+			}
+			sel := info.Selections[se]
+			if sel == nil || sel.Kind() != types.MethodVal {
+				return true
+			}
+			m, ok := sel.Obj().(*types.Func)
+			if !ok {
+				return true
+			}
+			st := byMethod[m]
+			if st == nil || curDecl == st.fd || len(sel.Index()) != 1 || ce.Ellipsis.IsValid() || len(ce.Args) != len(st.argPrm) {
+				return true
+			}
+			// the name of the stub must mean the stub here
+			if scope := nz.pkg.Types.Scope().Innermost(ce.Pos()); scope != nil {
+				if _, o := scope.LookupParent(st.f.Name(), ce.Pos()); o != types.Object(st.f) {
+					return true
+				}
+			}
+			args := make([]ast.Expr, len(st.prmTypes))
+			te, err := parser.ParseExpr(types.TypeString(st.prmTypes[st.recvPrm], qual))
+			if err != nil || !*qok {
+				return true
+			}
+			args[st.recvPrm] = &ast.CallExpr{Fun: &ast.ParenExpr{X: te}, Args: []ast.Expr{se.X}}
+			for j, pi := range st.argPrm {
+				args[pi] = ce.Args[j]
+			}
+			c.Replace(&ast.CallExpr{Fun: ast.NewIdent(st.f.Name()), Args: args})
+			nz.changed[file] = true
+			nz.log = append(nz.log, fmt.Sprintf("call of method %s written as a call of the reviewed function %s that forwards to it", m.Name(), st.f.Name()))
 			return true
 		})
 	}
